@@ -167,16 +167,32 @@ func verifC18(native bool, scenario int) {
 	snap.Meta.InstanceID = "other"
 	snap.Databases = append(snap.Databases, vSnapDBI("d", 0, "", []snapshot.KV{kvA, kvB}))
 	snap.Databases = append(snap.Databases, vSnapDBI("_sync_private", 0, "", []snapshot.KV{kvB}))
+	var kvZ, kvF snapshot.KV
 	if scenario == 2 {
-		// second DBI: one good entry followed by an entry whose length field overruns the data
-		good := vSnapDBI("e", 0, "", []snapshot.KV{kvE}).Marshal()
-		bad := append(append([]byte{}, good...), 0x12, 0x05, 0x0a, 0x01)
+		// DBI "e": a good entry, then an entry with a valid length prefix around ARBITRARY bytes
+		// (3..4 of them: truncated fields, unknown fields of any wire type, bad varints, ...),
+		// then another good entry; DBI "f" follows. shape 0 keeps the fixed overrunning entry.
+		kvZ = snapshot.KV{Key: []byte("zzzz"), Value: []byte("z"), TimestampNano: 9}
+		kvF = snapshot.KV{Key: []byte("f"), Value: []byte("f"), TimestampNano: 9}
+		m1 := vSnapDBI("e", 0, "", []snapshot.KV{kvE}).Marshal()
+		m2 := vSnapDBI("e", 0, "", []snapshot.KV{kvE, kvZ}).Marshal()
+		tail := m2[len(m1):]
+		bad := append([]byte{}, m1...)
+		if zz.Choice("bad.shape", 2) == 0 {
+			bad = append(bad, 0x12, 0x05, 0x0a, 0x01)
+		} else {
+			n := 3 + zz.Choice("bad.len", 2)
+			bad = append(bad, 0x12, byte(n))
+			bad = append(bad, zz.NondetBytes("bad", n)...)
+			bad = append(bad, tail...)
+		}
 		d, err := snapshot.NewDBIFromData(bad)
 		if err != nil {
 			zz.Reach("C18/malformed-rejected-at-decode")
 			return
 		}
 		snap.Databases = append(snap.Databases, d)
+		snap.Databases = append(snap.Databases, vSnapDBI("f", 0, "", []snapshot.KV{kvF}))
 	} else {
 		snap.Databases = append(snap.Databases, vSnapDBI("e", eflags, transform, []snapshot.KV{kvE}))
 	}
@@ -217,7 +233,19 @@ func verifC18(native bool, scenario int) {
 		zz.Assert(zz.Implies(ok, lerr == nil), "C18/valid-snapshot-accepted")
 	}
 	if scenario == 2 {
-		zz.Assert(lerr != nil, "C18/malformed-entry-reported")
+		// all or nothing: either the merge fails (and nothing was committed, asserted above), or
+		// the arbitrary bytes were a decodable entry and then everything after them was merged too:
+		// a decode problem in the middle of a DBI is never taken for the end of that DBI
+		if lerr == nil {
+			ee, _ := zz.Dump(env, "e")
+			ff, _ := zz.Dump(env, "f")
+			zz.Assert(vFind(ee, kvE.Key) != nil, "C18/malformed/entries-before-merged")
+			zz.Assert(vFind(ee, kvZ.Key) != nil, "C18/malformed/no-silent-truncation-of-the-dbi")
+			zz.Assert(vFind(ff, kvF.Key) != nil, "C18/malformed/later-dbis-merged")
+			zz.Reach("C18/malformed/accepted-as-entry")
+		} else {
+			zz.Reach("C18/malformed/reported")
+		}
 	}
 	if scenario == 3 && ctx.Err() != nil {
 		// the context was seen cancelled by one of the polls made during the merge
